@@ -2,6 +2,7 @@ package props
 
 import (
 	"bytes"
+	"reflect"
 	"encoding/json"
 	"fmt"
 
@@ -105,7 +106,7 @@ func firstDiff(a, b *pb.QuoteV4) string {
 }
 
 // messageProblem checks serialise-then-parse on a well-formed message made from parts.
-func messageProblem(p *world.QuoteParts) string {
+func messageProblem(p *world.QuoteParts, layout string) string {
 	wire := p.Bytes()
 	rq, err := ref.ParseQuote(wire)
 	if err != nil {
@@ -113,8 +114,25 @@ func messageProblem(p *world.QuoteParts) string {
 	}
 	m := mon.BuildMessage(rq)
 	keep := proto.Clone(m)
+	// the message's byte fields may be windows into one shared buffer (a caller decoding zero-copy): in wire order, or reversed
+	var shared []byte
+	switch layout {
+	case "shared-forward":
+		shared = rehome(m, false)
+	case "shared-reversed":
+		shared = rehome(m, true)
+	}
+	sharedBefore := append([]byte(nil), shared...)
 	var ser []byte
 	pv, st := mon.Guard(func() { ser, err = abi.QuoteToAbiBytes(m) })
+	if pv == "" && err == nil {
+		if !bytes.Equal(shared, sharedBefore) {
+			return fmt.Sprintf("serialising wrote into the buffer the message's fields live in (%s layout), first at offset %d", layout, firstByteDiff(shared, sharedBefore))
+		}
+		if !proto.Equal(m, keep) {
+			return "serialising changed the message (" + layout + " layout): " + firstDiff(m, keep.(*pb.QuoteV4))
+		}
+	}
 	if pv != "" {
 		return "QuoteToAbiBytes panics on a well-formed message: " + pv + "\n" + st
 	}
@@ -181,7 +199,9 @@ func c09(x *mon.Ctx) {
 		}
 		param := fmt.Sprintf("auth%d-chain%d-extra%d/%d", auth, chain, extra, i)
 		x.Crumb(i, "parse", bcase{"message", param, p.Bytes()})
-		prob := messageProblem(p)
+		layout := []string{"own", "shared-forward", "shared-reversed"}[i%3]
+		param += "/" + layout
+		prob := messageProblem(p, layout)
 		if prob != "" {
 			x.Violation("message", param, prob, "parse", bcase{"message", param, p.Bytes()})
 		}
@@ -191,4 +211,61 @@ func c09(x *mon.Ctx) {
 		}
 	})
 	x.Require("message", nm, 0, nm)
+}
+
+
+// rehome moves every byte field of the message into ONE buffer, as consecutive windows (in field order or
+// reversed), so that each field's spare capacity is the bytes of the fields that follow it. Returns the buffer.
+func rehome(m *pb.QuoteV4, reversed bool) []byte {
+	var fields []reflect.Value
+	var walk func(v reflect.Value)
+	walk = func(v reflect.Value) {
+		switch v.Kind() {
+		case reflect.Ptr:
+			if !v.IsNil() {
+				walk(v.Elem())
+			}
+		case reflect.Struct:
+			t := v.Type()
+			for i := 0; i < v.NumField(); i++ {
+				if t.Field(i).PkgPath == "" {
+					walk(v.Field(i))
+				}
+			}
+		case reflect.Slice:
+			if v.Type().Elem().Kind() == reflect.Uint8 {
+				if !v.IsNil() {
+					fields = append(fields, v)
+				}
+				return
+			}
+			for i := 0; i < v.Len(); i++ {
+				walk(v.Index(i))
+			}
+		}
+	}
+	walk(reflect.ValueOf(m))
+	total := 0
+	for _, f := range fields {
+		total += f.Len()
+	}
+	buf := make([]byte, total+64)
+	for i := range buf {
+		buf[i] = 0x9d
+	}
+	order := fields
+	if reversed {
+		order = nil
+		for i := len(fields) - 1; i >= 0; i-- {
+			order = append(order, fields[i])
+		}
+	}
+	off := 0
+	for _, f := range order {
+		n := f.Len()
+		copy(buf[off:], f.Bytes())
+		f.SetBytes(buf[off : off+n]) // capacity reaches to the end of the shared buffer
+		off += n
+	}
+	return buf
 }
